@@ -163,25 +163,62 @@ Theorem C10_split_parts :
 Proof. exact split_parts. Qed.
 Print Assumptions C10_split_parts.
 
-(* setup_task_paths with its refusal (one directory; names as character
-   codes): the task refuses to run exactly when the suffix-corrected output
-   name is one of the input names (e.g. output "data" for input
-   "data.rtdc") ... *)
-Theorem C10_setup_refuses_iff_output_is_input :
-  forall (inputs : list (list Z)) (name : list Z),
-    setup_paths inputs name = None <-> In (normalize_out name) inputs.
+(* setup_task_paths with its refusal.  Paths are (resolved directory, file
+   name) pairs, names lists of character codes; inputs arbitrary (also with
+   check_suffix=False).  The task refuses to run exactly when the
+   suffix-corrected output path or its temporary path is one of the input
+   paths (e.g. output "data" for input "data.rtdc"; output "x.rtdc" for
+   input "x.rtdc~") ... *)
+Theorem C10_setup_refuses_iff_output_or_temp_is_input :
+  forall (inputs : list fpath) (d : Z) (name : list Z),
+    setup_paths_at inputs d name = None
+    <-> In (d, normalize_out name) inputs
+        \/ In (d, temp_of (normalize_out name)) inputs.
 Proof. exact setup_refuses_iff. Qed.
-Print Assumptions C10_setup_refuses_iff_output_is_input.
+Print Assumptions C10_setup_refuses_iff_output_or_temp_is_input.
 
 (* ... and when it does run, the only two paths it unlinks - the output and
-   the temporary name, which is the output name plus "~" - are not among
-   the accepted inputs (.rtdc/.tdms): setup never removes an input. *)
+   the temporary path, which is the output name plus "~" in the same
+   directory - are not among the inputs, whatever their names: setup never
+   removes an input. *)
 Theorem C10_setup_unlinks_no_input :
-  forall (inputs : list (list Z)) (name o t : list Z),
+  forall (inputs : list fpath) (d : Z) (name : list Z) (o t : fpath),
     name <> [] ->
-    (forall inp, In inp inputs -> allowed_input inp = true) ->
-    setup_paths inputs name = Some (o, t) ->
-    o = normalize_out name /\ t = o ++ [tilde]
+    setup_paths_at inputs d name = Some (o, t) ->
+    o = (d, normalize_out name) /\ t = (d, snd o ++ [tilde])
     /\ ~ In o inputs /\ ~ In t inputs.
 Proof. exact setup_unlinks_no_input. Qed.
 Print Assumptions C10_setup_unlinks_no_input.
+
+(* With the suffix check in force (inputs .rtdc/.tdms) the temporary path
+   cannot be an input, so the refusal happens exactly when the output is. *)
+Theorem C10_setup_refusal_with_suffix_check :
+  forall (inputs : list fpath) (d : Z) (name : list Z),
+    name <> [] ->
+    (forall inp, In inp inputs -> allowed_input (snd inp) = true) ->
+    (setup_paths_at inputs d name = None
+     <-> In (d, normalize_out name) inputs).
+Proof. exact setup_refuses_allowed. Qed.
+Print Assumptions C10_setup_refusal_with_suffix_check.
+
+(* split (no setup_task_paths): for an input named <stem><suffix> (a pathlib
+   suffix is empty or starts with a dot) neither a part <stem>_<digits>.rtdc
+   nor its temporary name <stem>_<digits>.rtdc~ is the input. *)
+Theorem C10_split_names_not_input :
+  forall stem digits sfx : list Z,
+    (sfx = [] \/ exists r, sfx = dot :: r) ->
+    split_out stem digits <> stem ++ sfx
+    /\ temp_of (split_out stem digits) = split_out stem digits ++ [tilde]
+    /\ temp_of (split_out stem digits) <> stem ++ sfx.
+Proof. exact split_names_not_input. Qed.
+Print Assumptions C10_split_names_not_input.
+
+(* The executable test [split_shape] (evaluated on every recorded split
+   trace) delivers the word shape that C10_split_parts assumes. *)
+Theorem C10_split_shape_gives_parts_form :
+  forall (n : nat) (t : list op) (j : nat),
+    split_shape n t = true -> j <= n ->
+    t = firstn (length t - n) t
+        ++ map ren (seq 0 j) ++ map ren (seq j (n - j)).
+Proof. exact split_shape_form. Qed.
+Print Assumptions C10_split_shape_gives_parts_form.
